@@ -19,7 +19,7 @@ for r in det:
     missed = [c for c, (a, b) in sorted(per.items()) if a == 0]
     what = meta.get('summary', '') + (' — needs: ' + meta['needs'] if meta.get('needs') else '')
     rows.append('| %s | %s | %s | %s | %s | %s |' % (r['id'], r['property'], what.replace('|', '/'), ', '.join(caught) or '—', ', '.join(missed) or '—',
-                                                'yes' if ver.get('confirmed') else ('no: ' + str(ver.get('ctest_summary', 'not verified'))[:40])))
+                                                ('yes (subset of the suite, 3x)' if 'suite_scope' in ver else 'yes') if ver.get('confirmed') else ('no: ' + str(ver.get('ctest_summary', 'not verified'))[:40])))
 print('| seeded change | property | what it does — what it needs to show | caught by (quick tier; seeds 1 and 5 where two are given) | listed check that stays silent | repository suite passes 3x + demonstration confirmed |')
 print('|---|---|---|---|---|---|')
 print('\n'.join(rows))
